@@ -146,6 +146,14 @@ func vfGenOKCmd(t *rapid.T, m *vfModel, cfg vfGenCfg) vfCmd {
 				spec = vfFreeSpec(t, m, svc)
 			}
 			c = vfCmd{Op: "deploy", Svc: svc, Spec: spec, Targets: vfPick(t, vfActivePool, 3, "target"), Opt: vfGenOpts(t, spec, cfg)}
+			if old := m.Svcs[svc]; old.Rollout != nil && rapid.IntRange(0, 9).Draw(t, "keep-target-options") > 0 {
+				// steer around the listed finding (rollout targets keep the options they were created with): redeploy
+				// with the target-level options unchanged
+				tl := old.Opt.targetLevel()
+				c.Opt.HealthPath, c.Opt.IntervalMs, c.Opt.ProbeTimeoutMs, c.Opt.RespTimeoutMs = tl.HealthPath, tl.IntervalMs, tl.ProbeTimeoutMs, tl.RespTimeoutMs
+				c.Opt.BufReq, c.Opt.BufResp, c.Opt.MaxMem, c.Opt.MaxReq, c.Opt.MaxResp = tl.BufReq, tl.BufResp, tl.MaxMem, tl.MaxReq, tl.MaxResp
+				c.Opt.Forward, c.Opt.LogReq, c.Opt.LogResp = tl.Forward, tl.LogReq, tl.LogResp
+			}
 		case "rollout-deploy":
 			c = vfCmd{Op: "rollout-deploy", Svc: svc, Targets: vfPick(t, vfRolloutPool, 2, "rtarget")}
 		case "rollout-set":
